@@ -228,9 +228,11 @@ def extOf (g : Graph) : Rules.Ext where
   rxCompiles p := (g.rxc.lookup p).getD false
   rxMatch p s := (g.rxm.lookup (p, s)).getD false
 
+/-- the external renderings of float64 / float32 / []byte values (the plain types are rendered by
+the trace-key model itself) -/
 def kextOf (g : Graph) : TraceKey.Ext where
-  conv v := (g.conv.lookup v).getD ""
-  fmtv v := (g.fmtk.lookup v).getD ""
+  str ty raw := (g.conv.lookup (.ext ty raw)).getD ""
+  fmt ty raw := (g.fmtk.lookup (.ext ty raw)).getD ""
 
 def decList (s : String) : List String := if s == "-" || s == "" then [] else (s.splitOn ",").map dec
 
@@ -307,7 +309,9 @@ def missingExt (st : Inp) (g : Graph) (D : Dec) : Option String :=
   match vals.find? (fun v => (g.fmt.lookup v).isNone) with
   | some _ => some "fmt"
   | none =>
-    match gos.find? (fun v => (g.conv.lookup (toTK v)).isNone || (g.fmtk.lookup (toTK v)).isNone) with
+    match gos.find? (fun v => match toTK v with
+        | .ext _ _ => (g.conv.lookup (toTK v)).isNone || (g.fmtk.lookup (toTK v)).isNone
+        | _ => false) with
     | some v => some ("conv:" ++ goTok v)
     | none =>
       let E := extOf g
